@@ -735,6 +735,17 @@ func (r *Reconciler) applyRollback(ctx context.Context, transaction *configapi.T
 				}
 				return controller.Result{}, true, nil
 			}
+			// The applied configuration already carries this change: the node failed after updating the
+			// configuration and before marking the apply COMPLETE. applyChange, which knows this case, no longer
+			// runs in the rollback phase; complete the apply here so that the rollback can follow.
+			if configuration.Applied.Revision == configapi.Revision(transaction.ID.Index) {
+				transaction.Status.Change.Apply.State = configapi.TransactionPhaseStatus_COMPLETE
+				transaction.Status.Change.Apply.End = now()
+				if err := r.updateTransactionStatus(ctx, transaction); err != nil {
+					return controller.Result{}, false, err
+				}
+				return controller.Result{}, true, nil
+			}
 			return controller.Result{}, false, nil
 		case configapi.TransactionPhaseStatus_ABORTED, configapi.TransactionPhaseStatus_FAILED:
 			// If the change apply has been marked aborted or failed, ensure the applied configuration
